@@ -75,6 +75,7 @@ Archives(r, c, r2) ==
                   mv == [i \in 1..Len(sq) |-> P("UPDATE", Rebase(sq[i], p, q), sq[i], FALSE, r[sq[i]])]
               IN IF Exists(r, q) THEN << <<P("DELETE", q, q, FALSE, r[q])>>, mv >> ELSE << mv >>
     [] c.op = "Archive" -> << [i \in 1..Len(q) |-> P("CREATE", p \o <<q[i]>>, p \o <<q[i]>>, FALSE, FileNode(<<c.c>>))] >>
+    [] c.op = "UpdateBatch" -> << [i \in 1..Len(q) |-> P("UPDATE", p \o <<q[i]>>, p \o <<q[i]>>, TRUE, FileNode(<<c.c>>))] >>
     [] c.op \in {"Chmod", "Chown", "Chtimes"} -> << <<P("UPDATE", p, p, FALSE, r2[p])>> >>
     [] OTHER -> << >>
 
@@ -134,6 +135,9 @@ Calls ==
   \cup {C("Rename", p, q, "", 0) : p \in Paths \ {Root}, q \in Paths \ {Root}}
   \* OpenFile with a set of flag combinations, with and without a write
   \cup {C("Open", p, Root, ch, k) : p \in Paths \ {Root}, ch \in Chunks \cup {""}, k \in OpenFlags}
+  \* batched Operations.Update(replace): members that all exist as regular files
+  \cup UNION {{C("UpdateBatch", p, m, ch, 0) : m \in {mm \in BatchMembers : \A i \in 1..Len(mm) : IsFile(ref, p \o <<mm[i]>>)}, ch \in Chunks}
+                : p \in {x \in Paths : x \in DOMAIN ref /\ ref[x].kind = "dir" /\ Len(x) < MaxDepth}}
   \* batched Operations.Archive: 1..MaxBatch members with content below an existing directory
   \cup {C("Archive", p, m, ch, 0) : p \in {x \in Paths : x \in DOMAIN ref /\ ref[x].kind = "dir" /\ Len(x) < MaxDepth},
                                       m \in BatchMembers, ch \in Chunks}
